@@ -41,6 +41,7 @@ class Path:
         self.solver_s = 0.0
         self.notes = []
         self.fresh = 0
+        self.decomp = {}           # z3 ast id -> (base, digit terms lsb first, term)
 
     def assume(self, c):
         if isinstance(c, SymBool):
@@ -69,25 +70,30 @@ class Path:
             return False
         n = len(self.decisions)
         if n < len(self.prefix):
+            # replay: every symbolic branch event is recorded (0/1 free, 2/3 forced by the path
+            # condition), so no query is needed and forced events add nothing to the pc
             d = self.prefix[n]
             self.decisions.append(d)
-            self.assume(cond if d else z3.Not(cond))
-            return d
+            if d < 2:
+                self.assume(cond if d else z3.Not(cond))
+            return bool(d & 1)
         rt = self.check(cond)
-        rf = self.check(z3.Not(cond))
+        rf = self.check(z3.Not(cond)) if rt != z3.unsat else z3.sat
         if rt == z3.unknown or rf == z3.unknown:
-            # treat unknown as feasible (sound for proving: more paths), but remember
+            # unknown is treated as feasible (sound for proving: more paths), but remembered
             self.notes.append("feasibility-unknown")
         t_ok = rt != z3.unsat
         f_ok = rf != z3.unsat
         if t_ok and f_ok:
-            self.pending.append(self.decisions + [False])
-            self.decisions.append(True)
+            self.pending.append(self.decisions + [0])
+            self.decisions.append(1)
             self.assume(cond)
             return True
         if t_ok:
-            return True       # implied by pc; not recorded as a decision
+            self.decisions.append(3)
+            return True       # implied by pc
         if f_ok:
+            self.decisions.append(2)
             return False
         raise PathAbort()
 
@@ -634,6 +640,30 @@ def sym_char(name, ranges):
 
 HEXCH = "0123456789ABCDEF"
 
+# positional decompositions of parsed literals: z3 ast id -> (base, [digit terms, least significant first])
+# (kept alive by holding the term, so ids are not recycled)
+DECOMP = {}
+
+
+def register_decomp(v, base, digits_lsb):
+    if isinstance(v, SymInt):
+        cur().decomp[v.e.get_id()] = (base, list(digits_lsb), v.e)
+
+
+def digit_var(c, base):
+    """fresh bounded digit variable equal to the value of digit char c (keeps sums linear)"""
+    val, valid = hexdigit_value(c, base)
+    if isinstance(val, int):
+        return val, valid
+    if c.hexval is not None and base == 16:
+        return val, valid
+    p = cur()
+    dv = p.fresh_int("dg")
+    p.assume(z3.And(dv >= 0, dv < base))
+    # the defining equation is only meaningful when the char is a valid digit
+    p.assume(z3.Implies(_zb(valid), dv == val.e))
+    return SymInt(dv), valid
+
 
 def hexdigit_value(c, base=16):
     """value of a digit char in the given base -> (value, valid) with value int|SymInt, valid bool|SymBool"""
@@ -653,6 +683,42 @@ def hexdigit_value(c, base=16):
         valid = z3.And(code >= 48, code <= 48 + base - 1)
         val = code - 48
     return mk(val), mks(valid)
+
+
+def positional_digits(a, base, nd):
+    """digit terms (least significant first) of the non-negative SymInt a < base**nd in `base`.
+    Uses / records a positional decomposition so that no div/mod reaches the solver:
+    fresh bounded digit variables d_k with  a == sum d_k * base**k  (the decomposition is unique)."""
+    dec = cur().decomp.get(a.e.get_id())
+    if dec is not None:
+        b0, ds = dec[0], dec[1]
+        if b0 == base:
+            return [ds[k] if k < len(ds) else z3.IntVal(0) for k in range(nd)]
+        # base b0 -> base b0**m (binary -> hex)
+        m = 1
+        while b0 ** m < base:
+            m += 1
+        if b0 ** m == base:
+            out = []
+            for k in range(nd):
+                t = z3.IntVal(0)
+                for j in range(m):
+                    idx = m * k + j
+                    if idx < len(ds):
+                        t = t + ds[idx] * (b0 ** j)
+                out.append(z3.simplify(t))
+            return out
+    p = cur()
+    ds = []
+    tot = z3.IntVal(0)
+    for k in range(nd):
+        d = p.fresh_int("pd")
+        p.assume(z3.And(d >= 0, d < base))
+        ds.append(d)
+        tot = tot + d * (base ** k)
+    p.assume(a.e == tot)
+    p.decomp[a.e.get_id()] = (base, ds, a.e)
+    return ds
 
 
 def render_int(v, base=10, upper=True, width=0, fill="0"):
@@ -675,9 +741,9 @@ def render_int(v, base=10, upper=True, width=0, fill="0"):
         if nd > 12:
             raise EngineError("render_int: more than 12 digits")
     chars = []
+    digits = positional_digits(a, base, nd)
     for k in range(nd - 1, -1, -1):
-        d = (a.e / (base ** k)) % base if not isinstance(a, int) else z3.IntVal((a // base ** k) % base)
-        d = z3.simplify(d)
+        d = digits[k]
         if base == 16:
             code = z3.If(d < 10, 48 + d, (55 if upper else 87) + d)
         else:
@@ -704,11 +770,15 @@ def parse_int(s, base=10):
     if not chars:
         raise ValueError("invalid literal for int()")
     total = 0
+    digs = []
     for c in chars:
-        val, valid = hexdigit_value(c, base)
+        val, valid = digit_var(c, base)
         if not branch(valid):
             raise ValueError("invalid literal for int() with base %d" % base)
         total = total * base + val
+        digs.append(_z(val))
     if isinstance(total, SymInt):
         total = mks(total.e)
+        if not neg:
+            register_decomp(total, base, digs[::-1])
     return -total if neg else total
